@@ -46,7 +46,7 @@ ASSUMPTIONS = [
     'enters, so the comparison is exact up to rounding',
 ]
 BOUNDS = {
-    'quick': 'optimisation levels 1-2; circuits of <=3 operations (CNOT, CZ, U3 with distinct parameters, H, a 3-qubit CCX, '
+    'quick': 'optimisation levels 1-3; circuits of <=3 operations (CNOT, CZ, U3 with distinct parameters, H, a 3-qubit CCX, '
              'barrier, trailing measurement) on 2-3 logical qubits; models: every connected coupling graph on 3 vertices and '
              'lines/stars/rings on 4; machine wider than the circuit by 0-1',
     'thorough': 'levels 1-3, <=4 operations, <=4 logical / 5 physical qubits, every connected graph on <=4 vertices + line/'
@@ -352,6 +352,8 @@ def obligations(tier: str) -> list[dict]:
         ob('L2/n3m3/ops2/line', 280, n=3, m=3, nops=2, level=2, gates=['cx'], fixed_edges=[[0, 1], [1, 2]])
         ob('L1/n3m4/ops2/star', 280, n=3, m=4, nops=2, level=1, gates=['cx'], fixed_edges=[[0, 3], [1, 3], [2, 3]])
         ob('L1/n3m4/ccx/line', 280, n=3, m=4, nops=1, level=1, gates=['ccx'], fixed_edges=[[0, 1], [1, 2], [2, 3]])
+        ob('L3/n2m3/ops2', 280, n=2, m=3, nops=2, level=3, gates=['cx', 'u3'])
+        ob('L3/n3m3/ops2/line', 280, n=3, m=3, nops=2, level=3, gates=['cx'], fixed_edges=[[0, 1], [1, 2]])
     else:
         for level in (1, 2, 3):
             ob('L%d/n2m3/ops3' % level, 3000, n=2, m=3, nops=3, level=level, gates=['cx', 'u3', 'cz', 'barrier'])
